@@ -854,6 +854,35 @@ func edit(r *vh.Rng, v *VSIn) string {
 	}
 }
 
+// malform puts one setting into a state the validation webhook would reject or the controller
+// cannot use (the malformed stream): unparsable durations, unknown usages, contradictory issuer
+// settings, unusable external endpoints.
+func malform(r *vh.Rng, v *VSIn) {
+	switch r.Intn(8) {
+	case 0:
+		ensureCM(v).Duration = vh.Pick(r, []string{"bogus", "10", "-", "1d"})
+	case 1:
+		ensureCM(v).RenewBefore = vh.Pick(r, []string{"bogus", "h", "1.5.h"})
+	case 2:
+		ensureCM(v).Usages = vh.Pick(r, []string{"bogus usage", "server auth,", ",", "Server Auth", "server  auth"})
+	case 3:
+		c := ensureCM(v)
+		c.Issuer, c.ClusterIssuer = "iss-1", "ci-1"
+	case 4:
+		c := ensureCM(v)
+		c.Issuer, c.ClusterIssuer = "", ""
+	case 5:
+		c := ensureCM(v)
+		c.ClusterIssuer, c.IssuerKind, c.IssuerGroup = "ci-1", vh.Pick(r, kinds), vh.Pick(r, groups)
+	case 6:
+		v.XDNS.Enable = true
+		v.Endpoints = vh.Pick(r, []*[]ExtEp{nil, {}, {{}}, {{IP: "999.1.1.1"}}, {{IP: "1.2.3"}, {IP: "::g"}}, {{IP: " 10.0.0.1"}}})
+	default:
+		v.XDNS.Enable = true
+		v.XDNS.RType = vh.Pick(r, []string{"bogus", "a", " "})
+	}
+}
+
 func removeFeature(r *vh.Rng, v *VSIn) {
 	switch r.Intn(4) {
 	case 0:
@@ -964,7 +993,7 @@ func genInitDNS(r *vh.Rng, name string) DNSObj {
 
 func genCase(r *vh.Rng, id int) *Case {
 	c := &Case{ID: id}
-	classes := []string{"clean", "preexisting", "preexisting", "faults", "mixed", "mixed"}
+	classes := []string{"clean", "preexisting", "preexisting", "faults", "mixed", "mixed", "malformed"}
 	c.Class = classes[id%len(classes)]
 	pre := c.Class == "preexisting" || c.Class == "mixed"
 	flt := c.Class == "faults" || c.Class == "mixed"
@@ -991,6 +1020,9 @@ func genCase(r *vh.Rng, id int) *Case {
 				edit(r, &v)
 				if r.Chance(1, 4) {
 					edit(r, &v)
+				}
+				if c.Class == "malformed" && r.Chance(1, 2) {
+					malform(r, &v)
 				}
 			case k < 15:
 				kind = "resync"
